@@ -197,8 +197,12 @@ def bind(chk: Check, tier: str, seed: int):
         meta.append((d["id"], "-", "base"))
         for i, f in enumerate(d["fields"]):
             if f["match"] != -1:
-                continue
-            for cls, attr, v in variations(f, rawd["Fields"][i], rng, tier):
+                # a match field keeps its value; a lookup among them may still be requested by the name of that value
+                nm = LOOKUPS.get(f["lookup"], {}).get(str(f["match"])) if f["type"] == "LOOKUP" else None
+                var = [("name:match", "name", nm)] if nm is not None else []
+            else:
+                var = variations(f, rawd["Fields"][i], rng, tier)
+            for cls, attr, v in var:
                 m2 = copy.deepcopy(msg)
                 if attr == "both":
                     m2.fields[i].value = m2.fields[i].raw_value = None
